@@ -161,7 +161,15 @@ pub fn run(tier: Tier, seed0: u64) -> i32 {
             }
         }
     });
-    let mut pin_cases = (pins.len() * pin_seeds.len()) as u64;
+    // product: a strided subset of the PINs x 200 seeds (specific pin/seed combinations)
+    let many_seeds: Vec<u32> = (0..200u32).map(|i| i.wrapping_mul(0x9E37_79B1).rotate_left(i % 32) ^ (i * 3_628_800)).collect();
+    let some_pins: Vec<u32> = pins.iter().step_by((pins.len() / 3000).max(1)).cloned().collect();
+    some_pins.par_iter().for_each(|&p| {
+        for &s in &many_seeds {
+            check_hash(&report, p, s, &ss, &cs);
+        }
+    });
+    let mut pin_cases = (pins.len() * pin_seeds.len() + some_pins.len() * many_seeds.len()) as u64;
     if tier == Tier::Thorough {
         // all PINs below 10^8 (every 1..8 digit PIN) for one seed, plus the edges of the 9/10-digit ranges
         let ranges: Vec<(u32, u32)> = vec![(0, 100_000_000), (999_000_000, 1_001_000_000), (u32::MAX - 2_000_000, u32::MAX)];
